@@ -144,6 +144,10 @@ func rwHeader(e *rwEntry) *tar.Header {
 	if e.T == "0" {
 		h.Size = int64(e.Size)
 	}
+	if e.T == "1" && e.Size > 0 {
+		// pax/star style: a hard-link entry that records the size of the file it links to (no data follows)
+		h.Size = int64(e.Size)
+	}
 	if e.AT != nil {
 		h.AccessTime = rwTime(*e.AT)
 	}
@@ -1389,6 +1393,9 @@ func (g *rwGen) entry(old string, small bool, prior []rwEntry) rwEntry {
 		e.Link = r.pick(g.symTargets(old))
 	case "1":
 		e.Link = r.pick(g.hardTargets(old, prior))
+		if r.chance(1, 4) {
+			e.Size = []int{1, 12, 513}[r.intn(3)]
+		}
 	case "3", "4":
 		e.Maj = []int64{0, 1, 8, 259, 2097151}[r.intn(5)]
 		e.Min = []int64{0, 3, 255, 65536, 2097151}[r.intn(5)]
